@@ -95,3 +95,14 @@ void h_run(Case &c) {
   if (nontrivial) c.nontrivial();
   hwloc_topology_destroy(t);
 }
+
+bool h_named(const std::string &name, Case &c) {
+  if (name == "F-C08-a") {   // CPU-less sibling Groups reversed by a restrict that only touches complete cpusets
+    c.desc("xml 16amd64-8n2c-cpusets.xml; restrict({0-6,8-10,12-15}, 0)");
+    hwloc_topology_t t; hwloc_topology_init(&t); hwloc_topology_set_xml(t, (std::string(verif_repo()) + "/tests/hwloc/xml/16amd64-8n2c-cpusets.xml").c_str());
+    CHECK(c, hwloc_topology_load(t) == 0, "named_setup", "load failed"); require_wf(c, t, "load");
+    hwloc_bitmap_t s = hwloc_bitmap_alloc(); hwloc_bitmap_list_sscanf(s, "0-6,8-10,12-15"); int r = hwloc_topology_restrict(t, s, 0); hwloc_bitmap_free(s);
+    CHECK(c, r == 0, "named_setup", "restrict returned %d", r); require_wf(c, t, "after restrict"); hwloc_topology_destroy(t); return true;
+  }
+  return false;
+}
